@@ -73,7 +73,18 @@ def r1(ctx: Ctx) -> None:
                 self_conds = [(c, pol) for c, pol, _ in bp.conds if same_party(c)]
                 if len(self_conds) == 1 and len(bp.conds) == 1 and self_conds[0][1] is True:
                     # buyer and seller are one agent: +pv-pv and +v-v cancel, so leaving the holdings alone is the same fold
-                    none = not [e for e in bp.events if e.kind == "store" and (e.attr == "cash_amount" or (e.attr is None and e.base[0] == "attr" and e.base[2] == "asset_volumes"))]
+                    hs = [e for e in bp.events if e.kind == "store" and (e.attr == "cash_amount" or (e.attr is None and e.base[0] == "attr" and e.base[2] == "asset_volumes"))]
+                    none = not hs
+                    if not none:
+                        # ... or both legs are applied to the one agent and cancel: -pv +pv on its cash, +v -v on its shares
+                        per: Dict[str, List[str]] = {}
+                        for e in hs:
+                            d = _delta(e)
+                            tgt = key(strip_ver(e.base)) + ("" if e.attr else "[" + key(strip_ver(e.index)) + "]")
+                            per.setdefault(tgt, []).append(poly_key(to_poly(d)) if d is not None else "?")
+                        cancel = len(hs) == 4 and len(per) == 2 and all(len(v) == 2 and "?" not in v and _negk(v[0]) == v[1] for v in per.values())
+                        ctx.check(cancel and bp.exit[0] in ("fall", "continue"), f, l.node, "a fill of an agent with itself leaves its holdings as they are", "no update, or both legs on the one agent (the deltas cancel)", str(per)[:160])
+                        continue
                     ctx.check(none and bp.exit[0] in ("fall", "continue"), f, l.node, "a fill of an agent with itself leaves its holdings as they are", "no update (the two deltas cancel)", bp.describe()[:120])
                     continue
                 ctx.check(len(bp.conds) == len(self_conds) and bp.exit[0] == "fall", f, l.node, "holdings update is unconditional for every log", "no condition, no early exit", bp.describe()[:160])
@@ -90,7 +101,17 @@ def r1(ctx: Ctx) -> None:
 
                 def who(e: Event) -> str:
                     b = strip_ver(e.base if e.attr else e.base[1])
-                    return "buyer" if b == buyer else ("seller" if b == seller else key(b))
+                    if b == buyer:
+                        return "buyer"
+                    if b == seller:
+                        return "seller"
+                    # the agent looked up from the fill's buyer / seller id through the simulator's own tables
+                    # (that those tables lead to the agent registered under the id is the registry rule, C05.H1)
+                    ids = {key(x) for x in subterms(b) if x[0] == "attr" and x[1] == log and x[2] in ("buy_agent_id", "sell_agent_id")}
+                    roots = {key(x) for x in subterms(b) if x[0] == "attr" and x[1] == ("sym", "self")}
+                    if len(ids) == 1 and roots and b[0] in ("sub", "call"):
+                        return "buyer" if next(iter(ids)).endswith("buy_agent_id") else "seller"
+                    return key(b)
 
                 seen: Dict[str, str] = {}
                 for e in cash + shares:
